@@ -82,8 +82,24 @@ def run(ctx):
         if ok:
             tk = a[2][0]
             src = M.noref(tk[2][0])
-            ok = src[0] == "field" and src[2] == "stdout" and src[1][0] == "call" and "index" in src[1][1].lower()
-            if ok:
+            ok = src[0] == "field" and src[2] == "stdout" and src[1][0] == "call"
+            prev_sel = M.strip(src[1]) if ok else None
+            if ok and prev_sel[0] == "call" and prev_sel[1].endswith("::last_mut"):
+                # `ret.last_mut()`: the vector holds exactly the idx stages started so far, so its last element is stage idx-1
+                lm_bb = prev_sel[3]
+                vec_ok = False
+                for b, tt in pp.calls(loop):
+                    if b == lm_bb:
+                        base_op = tt["args"][0]
+                        sl_ = T.addr(base_op)
+                        base_t = M.noref(M.strip(T.operand(base_op), also=("<std::vec::Vec<T, A> as std::ops::DerefMut>::deref_mut",)))
+                        # deref_mut(&mut ret): find the local behind it
+                        for b3, t3 in pp.calls(loop):
+                            if "deref_mut" in M.callee_str(t3["f"]) and t3["t"] == lm_bb:
+                                vec_ok = T.addr(t3["args"][0]) == ret_slot
+                ok = vec_ok
+                detail = "previous stage taken as ret.last_mut() of the result vector: %s" % vec_ok
+            elif ok and "index" in src[1][1].lower():
                 # the indexed vector is the result vector, the index is idx - 1
                 tkbb = tk[3]
                 ixcall = [b for b, tt in pp.calls(loop) if "index" in M.callee_str(tt["f"]).lower() and b in pp.preds().get(tkbb, []) or False]
